@@ -190,11 +190,18 @@ def run_case(kind, q):
                     # the same process has just handled a frame of another shape with the same settings
                     pf = disk_frame(tuple(s_), np.array([s_[0] // 2, s_[1] // 2]), radius, q["amp"], q["bg"])
                     runner(pf, pattern, np.array([[s_[0] // 2, s_[1] // 2]]), upsample=us)
-                outs = runner(frame, pattern, starts, b=int(rng.integers(1, len(starts) + 2)), upsample=us)
+                kw_ = {}
+                st_ = starts
+                if q.get("pos_dtypes"):
+                    # the containers the positions travel in: start positions and the centre buffer in other integer dtypes,
+                    # unsigned ones included (all positions are inside the frame, hence non-negative)
+                    st_ = starts.astype(q["pos_dtypes"][0])
+                    kw_["outs"] = impl.alloc_out(len(starts), center_dtype=np.dtype(q["pos_dtypes"][1]))
+                outs = runner(frame, pattern, st_, b=int(rng.integers(1, len(starts) + 2)), upsample=us, **kw_)
             except Exception as e:
                 msgs.append(f"{pipeline}(upsample={us}) raised {type(e).__name__}: {e}")
                 continue
-            cen, ref = np.asarray(outs[0]), np.asarray(outs[1], dtype=np.float64)
+            cen, ref = np.asarray(outs[0]).astype(np.int64), np.asarray(outs[1], dtype=np.float64)
             bad = np.any(cen != p, axis=1)
             if bad.any():
                 i = int(np.argmax(bad))
@@ -324,6 +331,12 @@ def search(ctx, boost=1, focus=()):
     ctx.oracle_case("disk", q, msgs, key=classify("disk", q, msgs) if msgs else None, nontrivial=True)
     for k in range(n):
         q = gen_case(rng, k)
+        if k % 5 == 2:
+            q["pos_dtypes"] = [("uint16", "uint16"), ("uint32", "uint32"), ("uint16", "int32"), ("int64", "uint16"), ("uint8", "uint8"),
+                               ("int16", "int16")][(k // 5) % 6]
+            if "uint8" in q["pos_dtypes"] and max(q["shape"]) > 250:
+                q["pos_dtypes"] = ("uint16", "uint16")
+            ctx.count("position_containers_%s_%s" % tuple(q["pos_dtypes"]))
         msgs = run_case("disk", q)
         ctx.oracle_case("disk", q, msgs, key=classify("disk", q, msgs) if msgs else None,
                         nontrivial=(q["shape"][0] % 2 == 1 or q["shape"][1] % 2 == 1 or q["shape"][0] != q["shape"][1]))
